@@ -8,7 +8,7 @@ from common import R, Ro, fl
 
 from common import wiring_pre_build as pre_build  # noqa: E402,F401  (regenerates Generated/Wiring.lean from the tested tree)
 
-LEAN_MODULES = ["PyomaVerif.Props.C20", "PyomaVerif.Props.C20Extract", "PyomaVerif.Mutants.C20", "PyomaVerif.Props.WiringPlot", "PyomaVerif.Props.WiringClass"]
+LEAN_MODULES = ["PyomaVerif.Props.C20", "PyomaVerif.Props.C20Extract", "PyomaVerif.Mutants.C20", "PyomaVerif.Props.WiringPlot", "PyomaVerif.Props.WiringClass", "PyomaVerif.Props.C20Stored"]
 THEOREMS = [
     # class-layer wiring, regenerated from /repo on every run (translate_wiring.py)
     "PV.WiringPlot.C20_plot_stab_wiring",
@@ -35,6 +35,10 @@ THEOREMS = [
     "PV.C20.C20_cluster_label",
     "PV.C20.C20_cluster",
     "PV.C20.C20_cluster_same_poles",
+    # hpat discharged for the tables a run stores (ssiPoles writes Fn and Xi together; one Kept predicate blanks both)
+    "PV.Poles.ssiPoles_same_pattern",
+    "PV.C20Stored.stored_same_pattern",
+    "PV.C20Stored.C20_cluster_same_poles_stored",
     "PV.C20.C20_cmif_request",
     "PV.C20.C20_cmif",
     "PV.C20.C20_cmif_full_rejected",
